@@ -172,7 +172,7 @@ def kind_value(eng, kind, name):
 POSITIONS = [('conn', k) for k in ('my_addr', 'peer_addr', 'my_auth', 'peer_auth', 'lifetime', 'dpd', 'encr', 'integ', 'prf', 'dh', 'protect')] + \
             [('my_auth', k) for k in ('id', 'psk', 'pubkey', 'privkey')] + [('peer_auth', k) for k in ('id', 'psk', 'pubkey')] + \
             [('protect', k) for k in ('index', 'ip_proto', 'mode', 'lifetime', 'my_port', 'peer_port', 'ipsec_proto', 'encr', 'integ', 'dh',
-                                      'my_subnet', 'peer_subnet')] + [('top', 'conn1'), ('protect_entry', 0)]
+                                      'my_subnet', 'peer_subnet')] + [('top', 'conn1'), ('protect_entry', 0), ('conn_lists', 'all'), ('protect_lists', 'all')]
 
 
 def base_dict():
@@ -185,6 +185,12 @@ def base_dict():
 
 def apply(d, pos, kind, eng, tag):
     level, key = pos
+    if level in ('conn_lists', 'protect_lists'):
+        # all algorithm lists of that level at once (e.g. all empty)
+        ok = False
+        for k in (('encr', 'integ', 'prf', 'dh') if level == 'conn_lists' else ('encr', 'integ', 'dh')):
+            ok |= apply(d, ('conn' if level == 'conn_lists' else 'protect', k), kind, eng, tag + k)
+        return ok
     if level == 'top':
         target, k = d, key
     elif level == 'conn':
